@@ -9,6 +9,9 @@ The source code is distributed under BSD license, see the file License.txt
 at the top-level directory.
 */
 #include "slu_mt_ddefs.h"
+#ifdef SLU_MT_VERIF
+#include "slu_mt_verif.h"
+#endif /* SLU_MT_VERIF */
 
 void
 pxgstrf_pruneL(
@@ -84,6 +87,10 @@ pxgstrf_pruneL(
 	    
     	    if ( do_prune ) {
 
+#ifdef SLU_MT_VERIF
+		SLUV_EVENT(SLUV_E_PRUNE_BEGIN, -1, irep, jcol, kmin, kmax, 0);
+		SLUV_YIELD(SLUV_Y_PRUNE_SCAN);
+#endif /* SLU_MT_VERIF */
 	     	/* Do a quicksort-type partition */
 	        while ( kmin <= kmax ) {
 	    	    if ( perm_r[lsub[kmax]] == EMPTY ) 
@@ -95,12 +102,19 @@ pxgstrf_pruneL(
 			    */
 		        ktemp = lsub[kmin];
 		        lsub[kmin] = lsub[kmax];
+#ifdef SLU_MT_VERIF
+		        SLUV_YIELD(SLUV_Y_MID_SWAP);
+#endif /* SLU_MT_VERIF */
 		        lsub[kmax] = ktemp;
 		        kmin++;
 		        kmax--;
 		    }
 	        } /* while */
 
+#ifdef SLU_MT_VERIF
+		SLUV_EVENT(SLUV_E_PRUNE_END, -1, irep, jcol, kmin, 0, 0);
+		SLUV_TSAN_RELEASE(&ispruned[irep]);
+#endif /* SLU_MT_VERIF */
 	        xprune[irep] = kmin;	/* Pruning */
 		ispruned[irep] = 1;
 
